@@ -7,7 +7,7 @@ from symx.core import z3
 from symx.npproxy import NpProxy, shadow
 from symx.harness import Case
 import symx.harness  # noqa (puts the repo on sys.path)
-import wannierberri.system.system_kp as SKP, wannierberri.data_K.data_K_k as DKK, wannierberri.data_K.data_K as DK
+import wannierberri.utility as UT, wannierberri.system.system_kp as SKP, wannierberri.data_K.data_K_k as DKK, wannierberri.data_K.data_K as DK
 FD = importlib.import_module("wannierberri.system.__finite_differences")
 
 PROPERTY = "C31"
@@ -16,8 +16,12 @@ FUNCTIONS = ["wannierberri.system.system_kp.SystemKP.__init__ (k_to_1BZ, k_ham_f
 BOUNDS = dict(quick=dict(num_wann="1..2", Hamiltonian="polynomial of total degree <= 3 in k (all monomials) with symbolic Hermitian matrix coefficients in [-1,1]",
                          lattices="kmax=2 (cubic), tetragonal, hexagonal and one triclinic recip_lattice (triclinic: derivatives up to second order)", k="symbolic reduced k in [-0.49,0.49]^3; kp-face cases: one component anywhere in [-1/2,1/2), all three derivatives, analytic derHam / der2Ham supplied or not", conventions="cartesian and reduced k-vector; derivatives all numerical, or analytic derHam / der2Ham / der3Ham supplied up to order 1, 2, 3 (both conventions, all four non-identity reciprocal lattices)",
                          finite_diff_dk="1e-4 (default), 1e-3", tolerance="1e-8 absolute (coefficients and k bounded as stated)"),
-              thorough=dict(num_wann="1..3", Hamiltonian="as quick", lattices="as quick, triclinic up to third order", k="as quick (|k_i| <= 0.45 for dk=1e-2), 2 k-points through Data_K_k", conventions="both",
-                            finite_diff_dk="1e-4, 1e-3, 1e-2", tolerance="1e-8"))
+              thorough=dict(num_wann="1..3 (3 also with a cubic Hamiltonian)", Hamiltonian="as quick",
+                            lattices="cubic kmax = 0.35, 2, 5; tetragonal, orthorhombic, hexagonal, monoclinic, rhombohedral, triclinic reciprocal cells; fcc- and bcc-type reciprocal cells; a triclinic cell "
+                                     "given by real_lattice (stencils of 6, 8 and 12 points)",
+                            k="interior: symbolic reduced k in [-0.49,0.49]^3 (|k_i| <= 0.45 for dk=1e-2), up to 2 k-points through Data_K_k; faces, edges and corners: one, two or all three "
+                              "components anywhere in [-1/2,1/2), all three derivative orders", conventions="both; all numerical, or analytic derivatives supplied up to order 1, 2, 3",
+                            finite_diff_dk="1e-5, 1e-4, 1e-3, 1e-2", tolerance="1e-8"))
 EXPLANATION = ("SystemKP is given only a Hamiltonian that is a polynomial in k with symbolic Hermitian coefficient matrices; the real find_shells / Derivative3D chain produces derHam, der2Ham, "
                "der3Ham (in the kp-supplied cases the user also supplies the analytic derivatives up to order 1, 2 or 3 and only the higher ones are numerical), which are evaluated at a symbolic k (the box folding `% 1` is resolved by the path explorer).  z3 decides (tolerance shape, double stencil weights) that they equal the "
                "analytic cartesian derivatives - exactly the analytic ones for every derivative the stencil differentiates a polynomial of degree <= 2, plus the explicit O(dk^2) stencil term "
@@ -26,14 +30,22 @@ ASSUMPTIONS = ["interior cases: reduced k in [-0.49,0.49]^3 (keeps the number of
                "derivatives 1..3) so that the layers next to the faces of the box are covered", "coefficient matrices Hermitian, entries in [-1,1]"]
 OUTSIDE = ["third clause: calculator-level agreement between numerical and analytic derivatives (needs eigen-decomposition; an accuracy statement) - not applicable to the technique",
            "non-polynomial (merely smooth) Hamiltonians: only the Taylor terms up to order 3 are covered", "IEEE rounding of the stencil sums (cancellation error ~ eps/dk per derivative order)",
-           "lattices other than the listed ones"]
+           "lattices other than the listed ones (thirteen cells in the thorough tier)"]
 STUBS = ["grid stand-in with FFT=(1,1,1) for Data_K_k(k_list=...)", "UU_K = identity put into the Data_K cache (no eigh)"]
 
 GRID = SimpleNamespace(FFT=np.array([1, 1, 1]))
 LATT = dict(cubic=dict(kmax=2.0),
             tetra=dict(kmax=None, recip_lattice=np.array([[1.0, 0, 0], [0, 1.0, 0], [0, 0, 1.5]])),
             hex=dict(kmax=None, recip_lattice=np.array([[1.0, 0, 0], [-0.5, math.sqrt(3) / 2, 0], [0, 0, 1.25]])),
-            tric=dict(kmax=None, recip_lattice=np.array([[1.0, 0.125, 0], [-0.25, 1.25, 0.25], [0.125, 0, 1.5]])))
+            tric=dict(kmax=None, recip_lattice=np.array([[1.0, 0.125, 0], [-0.25, 1.25, 0.25], [0.125, 0, 1.5]])),
+            # thorough tier
+            small=dict(kmax=0.35), big=dict(kmax=5.0),
+            ortho=dict(kmax=None, recip_lattice=np.diag([0.7, 1.1, 1.6])),
+            mono=dict(kmax=None, recip_lattice=np.array([[1.0, 0, 0], [0.3, 1.2, 0], [0, 0, 0.9]])),
+            fccrec=dict(kmax=None, recip_lattice=0.75 * np.array([[-1.0, 1, 1], [1, -1, 1], [1, 1, -1]])),        # 8-point stencil
+            bccrec=dict(kmax=None, recip_lattice=0.8 * np.array([[0.0, 1, 1], [1, 0, 1], [1, 1, 0]])),            # 12-point stencil
+            rhomb=dict(kmax=None, recip_lattice=np.array([[1.0, 0.2, 0.2], [0.2, 1.0, 0.2], [0.2, 0.2, 1.0]])),   # 12-point stencil
+            realtric=dict(kmax=None, real_lattice=np.array([[3.0, 0.5, 0], [-0.25, 4.0, 0.75], [0.5, 0, 5.0]])))     # cell given by its real-space lattice
 KB = 0.49
 
 
@@ -47,7 +59,8 @@ def arrays_for(spec):
     kb = KB if spec["dk"] <= 1e-3 else 0.45          # interior cases: stay clear of the faces by more than the reach 3*dk*max|b| of the nested stencils
     A["k"] = symvec("k", (spec["nk"], 3), lo=-kb, hi=kb)
     if spec.get("face"):            # one component anywhere in the box [-1/2, 1/2), including the layers next to its faces
-        A["k"][0, spec.get("face_axis", 0)] = SymC.var("kface", -0.5, 0.5 - 2.0 ** -30)
+        for ax in spec.get("face_axes", [spec.get("face_axis", 0)]):          # one component: faces; two: edges; three: the whole box including its corners
+            A["k"][0, ax] = SymC.var(f"kface{ax}" if "face_axes" in spec else "kface", -0.5, 0.5 - 2.0 ** -30)
     return A
 
 
@@ -88,7 +101,12 @@ def obligations(rec, spec, A, xp):
     C = {m: A["C" + "".join(map(str, m))] for m in monomials(deg)}
     Ham = lambda k: poly_eval(C, k)
     lat = LATT[spec["lattice"]]
-    G0 = np.eye(3) * 2 * lat["kmax"] if lat["kmax"] is not None else lat["recip_lattice"]
+    if lat["kmax"] is not None:
+        G0 = np.eye(3) * 2 * lat["kmax"]
+    elif "recip_lattice" in lat:
+        G0 = lat["recip_lattice"]
+    else:
+        G0 = UT.real_recip_lattice(real_lattice=lat["real_lattice"])[1]
     J = np.eye(3) if cart else np.linalg.inv(G0)    # d k_ham_i / d k_cart_a
     sup = spec.get("supplied", 0)                   # the user supplies the analytic derivatives up to this order, the rest is numerical
     user = {name: (lambda kh, o=o: analytic(C, kh, J, o, nb)) for o, name in ((1, "derHam"), (2, "der2Ham"), (3, "der3Ham")) if o <= sup}
@@ -177,6 +195,27 @@ def cases(tier, seed):
         supplied = [(lattice, cart, 3, nb, sup) for lattice in ("cubic", "tetra", "hex", "tric") for cart in (True, False) for sup in (1, 2, 3) for nb in (1, 2)
                     if not (nb == 2 and lattice in ("hex", "tric") and sup == 1)]
         faces += [("hex", False, 3, 1, 0, 1e-4), ("tetra", False, 3, 2, 1, 1e-3), ("tric", False, 3, 3, 2, 1e-4), ("cubic", False, 3, 1, 2, 1e-3)]
+    if not q:
+        # edges and corners of the box (two / three components anywhere in [-1/2,1/2)), all derivative orders, with and without supplied analytic derivatives
+        for lattice, cart, deg, nb, sup, axes, dk in (("cubic", True, 3, 1, 0, [0, 1], 1e-4), ("cubic", False, 3, 1, 0, [0, 1, 2], 1e-3), ("hex", True, 3, 1, 0, [0, 1, 2], 1e-4), ("tric", False, 2, 1, 0, [1, 2], 1e-4),
+                                                      ("fccrec", True, 3, 1, 1, [0, 1, 2], 1e-4), ("mono", False, 3, 1, 2, [0, 2], 1e-4), ("bccrec", False, 2, 1, 0, [0, 1, 2], 1e-4), ("big", True, 3, 2, 0, [0, 1, 2], 1e-4),
+                                                      ("small", False, 3, 2, 1, [0, 1, 2], 1e-2), ("rhomb", True, 2, 1, 1, [0, 1, 2], 1e-5), ("realtric", True, 3, 1, 0, [0, 1, 2], 1e-4), ("ortho", False, 3, 2, 3, [0, 1, 2], 1e-4)):
+            spec = dict(lattice=lattice, cartesian=cart, deg=deg, nb=nb, dk=dk, nk=1, dkorders=3, orders=3, face=True, face_axes=axes, supplied=sup)
+            out.append(Case(f"kp-{'corner' if len(axes) == 3 else 'edge'} {lattice} {'cartesian' if cart else 'reduced'} deg={deg} nb={nb} dk={dk} supplied up to {sup}: k_{axes} anywhere in [-1/2,1/2), derivatives 1..3",
+                            case_run, dict(spec=spec), timeout=3000))
+        # more cells: kmax != 0.5 small / large, orthorhombic, monoclinic, fcc / bcc reciprocal cells (8- and 12-point stencils), rhombohedral, cell given by real_lattice; nb = 3 with a cubic Hamiltonian
+        for lattice, cart, deg, nb, dk in (("small", True, 3, 2, 1e-4), ("small", False, 3, 1, 1e-5), ("big", True, 3, 1, 1e-4), ("big", False, 2, 2, 1e-3), ("ortho", True, 3, 2, 1e-4), ("ortho", False, 3, 1, 1e-4),
+                                           ("mono", True, 3, 1, 1e-4), ("mono", False, 2, 2, 1e-4), ("fccrec", True, 3, 1, 1e-4), ("fccrec", False, 2, 2, 1e-4), ("bccrec", True, 2, 1, 1e-4), ("bccrec", False, 3, 1, 1e-4),
+                                           ("rhomb", True, 3, 1, 1e-4), ("rhomb", False, 2, 1, 1e-5), ("realtric", True, 3, 1, 1e-4), ("realtric", False, 2, 2, 1e-4), ("cubic", True, 3, 3, 1e-4), ("cubic", False, 3, 3, 1e-4),
+                                           ("tetra", True, 3, 3, 1e-4), ("cubic", True, 3, 2, 1e-5), ("hex", True, 3, 2, 1e-2),
+                                           ("bccrec", True, 3, 2, 1e-4), ("rhomb", False, 3, 2, 1e-4), ("tric", False, 3, 2, 1e-4), ("hex", False, 3, 2, 1e-4), ("hex", True, 3, 3, 1e-4), ("fccrec", False, 3, 3, 1e-4),
+                                           ("ortho", True, 3, 3, 1e-3), ("mono", False, 3, 2, 1e-4), ("realtric", True, 3, 2, 1e-4), ("bccrec", False, 2, 3, 1e-4), ("tric", True, 2, 3, 1e-4)):
+            spec = dict(lattice=lattice, cartesian=cart, deg=deg, nb=nb, dk=dk, nk=1, dkorders=2 if nb > 1 else 3, orders=3 if (nb < 3 or lattice in ("cubic", "ortho", "hex", "fccrec")) else 2)
+            out.append(Case(f"kp {lattice} {'cartesian' if cart else 'reduced'} deg={deg} nb={nb} dk={dk} (more cells)", case_run, dict(spec=spec), timeout=3000))
+        for lattice, cart, nb, sup in (("small", False, 1, 1), ("big", False, 2, 1), ("ortho", False, 1, 2), ("mono", True, 1, 1), ("fccrec", False, 1, 1), ("bccrec", False, 1, 2), ("rhomb", False, 1, 3), ("realtric", False, 1, 1),
+                                       ("realtric", True, 2, 2), ("cubic", False, 3, 1), ("cubic", True, 3, 2)):
+            spec = dict(lattice=lattice, cartesian=cart, deg=3, nb=nb, dk=1e-4, nk=1, dkorders=3, orders=3, supplied=sup)
+            out.append(Case(f"kp-supplied {lattice} {'cartesian' if cart else 'reduced'} deg=3 nb={nb}: analytic derivatives supplied up to order {sup} (more cells)", case_run, dict(spec=spec), timeout=3000))
     for lattice, cart, deg, sup, axis, dk in faces:
         spec = dict(lattice=lattice, cartesian=cart, deg=deg, nb=1, dk=dk, nk=1, dkorders=3, orders=3, face=True, face_axis=axis, supplied=sup)
         out.append(Case(f"kp-face {lattice} {'cartesian' if cart else 'reduced'} deg={deg} nb=1 dk={dk} analytic derivatives supplied up to order {sup}: k_{axis} anywhere in [-1/2,1/2), "
